@@ -126,6 +126,14 @@ def wholerun_record(ctx, res, rec):
     program_repair = rec["status"] == "repaired" and rec["by"] not in ("natural", "", "None")
     if rec["mitDays"] != 0 and not program_repair:
         ctx.violate("C02:mitigation-without-program-repair", "non-zero mitigation without program repair", inp)
+    if not EC.tagging_methods(res.cfg, rec["prog"]):
+        # coverage 0 (or no component-scale method at all): nothing can ever be tagged, so nothing is mitigated
+        # and the leak lives exactly as without LDAR - read from the configuration only
+        ctx.count("wholerun_records_of_programs_that_cannot_tag:%s" % ("no-methods" if not next(p_["methods"] for p_ in res.cfg["programs"] if p_["name"] == rec["prog"]) else "coverage-0"))
+        if rec["mitDays"] != 0 or program_repair or rec["activeDays"] != base["activeDays"]:
+            ctx.violate("C02:mitigation-with-zero-coverage",
+                        "a program none of whose methods can see any emission (coverage 0 / no tagging method) "
+                        "reports mitigation, a program repair or a life that differs from the no-LDAR run", inp)
     vol_ok = rec["emitDays"] + rec["mitDays"] == base["emitDays"]
     if rec["intermittent"]:
         intermittent_identity(ctx, rec["adur"], rec["idur"],
